@@ -34,7 +34,7 @@ Quantified over: {quant}
 {len(prev)} earlier contributors already produced these changes for this property — do NOT repeat any of them or a close variant, and do not reuse their code sites or trigger conditions:
 {prevtxt}
 
-YOUR TASK: produce ONE realistic change to the library source (files under src/) that BREAKS this property in a way that is NEW in both code site and trigger, while the crate still compiles and its whole existing test-suite still passes (`cargo test --offline` must be green: unit tests, integration tests under tests/, and doc tests). It should look like something a real contributor could plausibly introduce (a refactoring, optimisation, "robustness" tweak, feature addition, dependency-style cleanup...). It must be a genuine violation of the property AS STATED and stay strictly inside what the property quantifies over (re-read the "Quantified over" text: if your trigger needs something outside it, pick another idea). Think of the classic slips of everyday maintenance: an off-by-one, a wrong constant or unit (bytes vs 16-bit words), two swapped arguments or fields of the same type, a wrong endianness, a condition inverted or made too wide / too narrow, a missing flush / seek / reset of a counter, a copy-paste slip in a table or macro invocation, an early return that skips bookkeeping, a value computed before instead of after a mutation. Pick the one such slip, anywhere in src/, that breaks THIS property, survives the existing tests, and shows up in ordinary use of the public API (common shape types, typical data, typical call sequences). Keep the diff small (ideally under 15 changed lines) and plausible. The property will be checked by a randomised / enumerative test generator that already knows the ideas above. Do not edit or delete existing tests.
+YOUR TASK: produce ONE realistic change to the library source (files under src/) that BREAKS this property in a way that is NEW in both code site and trigger, while the crate still compiles and its whole existing test-suite still passes (`cargo test --offline` must be green: unit tests, integration tests under tests/, and doc tests). It should look like something a real contributor could plausibly introduce (a refactoring, optimisation, "robustness" tweak, feature addition, dependency-style cleanup...). It must be a genuine violation of the property AS STATED and stay strictly inside what the property quantifies over (re-read the "Quantified over" text: if your trigger needs something outside it, pick another idea). This time, make it a FEATURE or PERFORMANCE change of the kind that gets merged because it looks like an improvement: caching a computed value (a box, a size, a count, a type) that later goes stale; buffering or batching I/O; computing something lazily or only once; reusing an allocation; adding a fast path for a common case (single part, single record, 2-D types, files without M) whose result differs subtly from the general path; adding a convenience default. It must break THIS property for ordinary inputs reachable through the public API, survive the existing tests, and be different in code site and trigger from the earlier ideas. The property will be checked by a randomised / enumerative test generator that already knows the ideas above. Do not edit or delete existing tests.
 
 DELIVERABLES, all under {wt}/_out/ (create the directory):
 1. patch.diff — the output of `git diff -- src/` (library source only).
